@@ -199,3 +199,34 @@ Definition async_evolve2d_twice (sp : rule_spec) (o : option (list (nat * nat)))
   bind (async_evolve2d_obj sp ps r ty (async_obj2 o rand ps (grid_rows g0) (grid_cols g0)) hist1 T1) (fun x1 =>
   bind (async_evolve2d_obj sp ps r ty (fst x1) hist2 T2) (fun x2 =>
   Ok (snd x1, snd x2, snd (a_inner (fst x2))))).
+
+(* ---- one rule object driven through any number of successive evolve calls: calls = [(history given, timesteps)] *)
+Fixpoint async_evolve1d_calls (sp : rule_spec) (ps : list (list nat)) (r : nat)
+         (a : astate nat (nat * list call1)) (calls : list (list (list Z) * nat))
+  : res (astate nat (nat * list call1) * list (list (list Z))) :=
+  match calls with
+  | [] => Ok (a, [])
+  | (hist, T) :: rest =>
+      bind (async_evolve1d_obj sp ps r a hist T) (fun x =>
+      bind (async_evolve1d_calls sp ps r (fst x) rest) (fun y => Ok (fst y, snd x :: snd y)))
+  end.
+Definition async_evolve1d_seq (sp : rule_spec) (o : option (list nat)) (rand : bool) (ps : list (list nat))
+           (r : nat) (calls : list (list (list Z) * nat)) : res (list (list (list Z)) * list call1) :=
+  let N := length (last (fst (hd ([], 0) calls)) []) in
+  bind (async_evolve1d_calls sp ps r (async_obj1 o rand ps N) calls)
+       (fun x => Ok (snd x, snd (a_inner (fst x)))).
+
+Fixpoint async_evolve2d_calls (sp : rule_spec) (ps : list (list nat)) (r : nat) (ty : nbhd_type)
+         (a : astate (nat * nat) (nat * list call2)) (calls : list (list grid * nat))
+  : res (astate (nat * nat) (nat * list call2) * list (list grid)) :=
+  match calls with
+  | [] => Ok (a, [])
+  | (hist, T) :: rest =>
+      bind (async_evolve2d_obj sp ps r ty a hist T) (fun x =>
+      bind (async_evolve2d_calls sp ps r ty (fst x) rest) (fun y => Ok (fst y, snd x :: snd y)))
+  end.
+Definition async_evolve2d_seq (sp : rule_spec) (o : option (list (nat * nat))) (rand : bool) (ps : list (list nat))
+           (r : nat) (ty : nbhd_type) (calls : list (list grid * nat)) : res (list (list grid) * list call2) :=
+  let g0 := last (fst (hd ([], 0) calls)) [] in
+  bind (async_evolve2d_calls sp ps r ty (async_obj2 o rand ps (grid_rows g0) (grid_cols g0)) calls)
+       (fun x => Ok (snd x, snd (a_inner (fst x)))).
